@@ -19,6 +19,7 @@ import (
 	"github.com/ja7ad/otp/verifharness/ev"
 	"github.com/ja7ad/otp/verifharness/irt"
 	"github.com/ja7ad/otp/verifharness/ref"
+	"github.com/ja7ad/otp/verifharness/xplore"
 	"github.com/valyala/fasthttp"
 )
 
@@ -383,9 +384,69 @@ func runFaults(c c19Case, base map[string]uint64) (obs, bad string) {
 type c19ChildFail struct {
 	Scenario, Sig, Want, Got string
 	Case                     c19Case
+	Sched                    *c19Sched `json:",omitempty"`
+}
+
+// c19Sched is one interleaving of overlapping refused requests.
+type c19Sched struct {
+	Faults  []fault `json:"overlapping_requests"`
+	Choices []int   `json:"choices"`
+}
+
+// schedFaults are the refused-request classes whose handling is explored under overlap.
+func schedFaults() []fault {
+	good := bodyOf(validBody("/hotp/generate"))
+	return []fault{
+		{"GET /totp/generate (wrong method)", rawReq("GET", "/totp/generate", ""), true},
+		{"POST /otp/secret (wrong method)", rawReq("POST", "/otp/secret", "{}"), true},
+		{"PUT /hotp/generate (wrong method, valid body)", rawReq("PUT", "/hotp/generate", good), true},
+		{"GET /nope (unknown path)", rawReq("GET", "/nope", ""), true},
+		{"POST /hotp/generate broken JSON", rawReq("POST", "/hotp/generate", `{"secret":`), true},
+		{"POST /hotp/validate missing code", rawReq("POST", "/hotp/validate", `{"secret":"GEZDGNBVGY3TQOJQ"}`), true},
+		{"POST /ocra/generate unknown suite", rawReq("POST", "/ocra/generate", `{"secret":"GEZDGNBVGY3TQOJQ","raw_suite":"OCRA-1:HOTP-SHA1-6:QN99","input":{"challenge_hex":"3132333435363738"}}`), true},
+	}
+}
+
+// runFaultSchedule runs the given refused requests as logical threads under the cooperative scheduler; every
+// response must be exactly the response the same request gets alone (status and body).
+func runFaultSchedule(fs []fault, x *xplore.X) (obs, bad string) {
+	restInit()
+	irt.ResetPools()
+	alone := make([]restResp, len(fs))
+	stable := make([]bool, len(fs))
+	for i, f := range fs {
+		a1 := restDo(nil, f.Req.Method, f.Req.uri(), f.Req.body())
+		a2 := restDo(nil, f.Req.Method, f.Req.uri(), f.Req.body())
+		alone[i], stable[i] = a1, a1 == a2
+	}
+	got := make([]restResp, len(fs))
+	var bodies []func()
+	for i := range fs {
+		i := i
+		bodies = append(bodies, func() {
+			got[i] = restDo(nil, fs[i].Req.Method, fs[i].Req.uri(), fs[i].Req.body())
+		})
+	}
+	res := irt.RunThreads(x, 100000, true, bodies)
+	for _, p := range res.Panics {
+		if strings.Contains(p, "replay diverged") {
+			return "", "NONDETERMINISM: " + p
+		}
+	}
+	if res.Deadlock || res.Overrun || len(res.Panics) > 0 {
+		return "abnormal", fmt.Sprintf("overlapping refused requests: deadlock=%v overrun=%v panics=%v", res.Deadlock, res.Overrun, res.Panics)
+	}
+	for i := range fs {
+		obs += fmt.Sprintf("[%d %s]", got[i].Status, trunc80(got[i].Body))
+		if got[i].Status != alone[i].Status || (stable[i] && got[i].Body != alone[i].Body) {
+			return obs, fmt.Sprintf("request %d (%s) overlapping with the other(s) is answered %d %s, alone it is answered %d %s", i, fs[i].Name, got[i].Status, trunc80(got[i].Body), alone[i].Status, trunc80(alone[i].Body))
+		}
+	}
+	return obs, ""
 }
 
 type c19ChildResult struct {
+	Sched            int64
 	StateKeys        []uint64
 	N, States, Trans int64
 	Core             int
@@ -418,7 +479,7 @@ func c19InProc(r *ev.Run, fl []fault, base map[string]uint64) {
 		out.Trans += int64(2 * len(c.Faults))
 		states[irt.Digest(true)] = true
 		if bad != "" && len(out.Fails) < 30 {
-			out.Fails = append(out.Fails, c19ChildFail{"fault-sequence", bad, "complete response, consistent status, probes exact, bounded work", obs + " " + bad, c})
+			out.Fails = append(out.Fails, c19ChildFail{Scenario: "fault-sequence", Sig: bad, Want: "complete response, consistent status, probes exact, bounded work", Got: obs + " " + bad, Case: c})
 		}
 		var st int
 		fmt.Sscanf(obs, "[%d|", &st)
@@ -482,6 +543,37 @@ func c19InProc(r *ev.Run, fl []fault, base map[string]uint64) {
 			}
 		}
 	}
+	if shard == 0 && os.Getenv("VERIF_ONE") == "" {
+		// overlapping refused requests: all interleavings of every pair (and one triple) of classes, preemption-bounded
+		sf := schedFaults()
+		var combos [][]fault
+		for i := range sf {
+			for j := i; j < len(sf); j++ {
+				combos = append(combos, []fault{sf[i], sf[j]})
+			}
+		}
+		combos = append(combos, []fault{sf[0], sf[1], sf[3]})
+		bound := 1
+		if r.Thorough() {
+			bound = 2
+		}
+		for _, fs := range combos {
+			var lastBad, lastObs string
+			nf := 0
+			st := xplore.Explore(xplore.Options{Bound: bound, MaxExec: 200000}, func(x *xplore.X) {
+				lastObs, lastBad = runFaultSchedule(fs, x)
+			}, func(x *xplore.X) bool {
+				if lastBad != "" && nf < 2 && len(out.Fails) < 30 {
+					nf++
+					out.Fails = append(out.Fails, c19ChildFail{Scenario: "fault-schedule", Sig: faultNames(fs)[0] + " || " + faultNames(fs)[1] + ": " + lastBad, Want: "each overlapping request answered exactly as it is answered alone", Got: lastObs + " " + lastBad, Sched: &c19Sched{fs, x.Choices()}})
+				}
+				return nf < 2
+			})
+			out.N += st.Executions
+			out.Trans += st.Executions
+			out.Sched += st.Executions
+		}
+	}
 	out.States = int64(len(states))
 	for k := range states {
 		out.StateKeys = append(out.StateKeys, ev.H(k))
@@ -536,6 +628,7 @@ func c19RunChild(r *ev.Run) (res c19ChildResult, crashed *c19Case, note string) 
 	states, dist := map[uint64]bool{}, map[uint64]bool{}
 	for _, p := range parts {
 		res.N += p.res.N
+		res.Sched += p.res.Sched
 		res.Trans += p.res.Trans
 		if p.res.Core > res.Core {
 			res.Core = p.res.Core
@@ -649,6 +742,12 @@ func c19(r *ev.Run) {
 		}
 		return "survived", ""
 	})
+	r.Scenario("fault-schedule", func(raw []byte) (string, string) {
+		c := unjson[c19Sched](raw)
+		var o, bad string
+		xplore.Run(c.Choices, func(x *xplore.X) { o, bad = runFaultSchedule(c.Faults, x) })
+		return o, bad
+	})
 	r.Scenario("wire-sequence", func(raw []byte) (string, string) {
 		srv, err := startServer()
 		if err != nil {
@@ -688,8 +787,13 @@ func c19(r *ev.Run) {
 	}
 	res, crashed, crashNote := c19RunChild(r)
 	for _, f := range res.Fails {
+		if f.Sched != nil {
+			r.Fail(f.Scenario, f.Sig, *f.Sched, f.Want, f.Got)
+			continue
+		}
 		r.Fail(f.Scenario, f.Sig, f.Case, f.Want, f.Got)
 	}
+	r.Set("overlapping_refused_request_schedules", res.Sched)
 	r.Eval(res.N)
 	r.State(res.States)
 	r.Transition(res.Trans)
